@@ -21,7 +21,7 @@
 #define verif_dropped_case() M_ASSERT(0, "a case of build_exec that the extraction dropped was reached")
 #define verif_assert_fail_libc(a, b, c, d) verif_assert_fail("assert in build.cc")
 unsigned long nondet_ulong(void);
-enum mop_kind { K_NONE, K_UPSTREAM, K_ORIGIN, K_SUBCHAIN, K_IFELSE, K_MERGE, K_TINE, K_CAPTURE, K_SUBX, K_CLOSURE, K_OR };
+enum mop_kind { K_NONE, K_UPSTREAM, K_ORIGIN, K_SUBCHAIN, K_IFELSE, K_MERGE, K_TINE, K_CAPTURE, K_SUBX, K_CLOSURE, K_OR, K_READ, K_UPREAD, K_APPLY, K_BIND, K_BUILTIN, K_LEXCLOSURE };
 typedef struct mlayout { unsigned long m_size; } mlayout;
 typedef struct mlayvec { mlayout d[4]; unsigned long n; } mlayvec;
 #define MLAYVEC_FROM_IL(il) (il)
@@ -31,15 +31,19 @@ typedef struct mop {
   unsigned long lo, hi;         /* its state */
   struct mop *a[7];             /* constructor arguments that are operators, in order */
   int call;                     /* K_SUBCHAIN: index of the build_exec call that returned it */
-  unsigned long extra;          /* further scalar argument (tine index, closure kind, ...) */
+  unsigned long extra, extra2;  /* further scalar arguments (tine index, closure kind, up-value id, rendezvous ...) */
+  const struct mbuiltin *bi;
   unsigned nbranches; struct mop *branch[4]; struct mop *borigin[4];
 } mop;
-typedef struct muprefs { char unused; } muprefs;
+struct mbindings;
+typedef struct muprefs { const struct mbindings *from_bn; const struct muprefs *from_up; } muprefs;
 typedef struct mbuiltin { char unused; } mbuiltin;
 typedef struct mbindings { struct mbindings *m_super; } mbindings;
 struct mtree;
 typedef struct mtreevec { struct mtree *d; unsigned long n; } mtreevec;
-typedef struct mtree { int m_tt; mtreevec m_children; mbuiltin *m_builtin; } mtree;
+typedef int matom;              /* an identifier (std::string in tree::str, bindings, uprefs): atoms 0..3 */
+#define NATOMS 4
+typedef struct mtree { int m_tt; mtreevec m_children; mbuiltin *m_builtin; matom m_str; } mtree;
 #define PTR_ID(p) (p)
 #define VERIF_MOVE(p) (p)
 static inline const mtree *mtreevec_at(const mtreevec *v, unsigned long i) { M_ASSERT(i < v->n, "child index within the tree"); return &v->d[i < v->n ? i : 0]; }
@@ -53,7 +57,7 @@ static inline mop *new_op(int kind)
 {
   M_ASSERT(g_npool < POOL, "operator pool large enough");
   mop *o = &g_pool[g_npool < POOL ? g_npool : 0]; g_npool++;
-  o->kind = kind; o->lay = 0; o->lo = o->hi = 0; o->call = -1; o->extra = 0; o->nbranches = 0;
+  o->kind = kind; o->lay = 0; o->lo = o->hi = 0; o->call = -1; o->extra = 0; o->extra2 = 0; o->bi = 0; o->nbranches = 0;
   for (int i = 0; i < 7; ++i) o->a[i] = 0;
   return o;
 }
@@ -73,7 +77,7 @@ static inline void mlayout_add_union(mlayout *l, mlayvec v)
 }
 /* ghost log of the recursive build_exec calls */
 #define CMAX 4
-typedef struct bx_call { const mtree *tree; mlayout *lay; unsigned long entry, exit; mop *upstream; mbindings *scope, *scope_super; muprefs *up; unsigned long rdv; } bx_call;
+typedef struct bx_call { const mtree *tree; mlayout *lay; unsigned long entry, exit; mop *upstream; mbindings *scope, *scope_super; muprefs *up; const mbindings *up_from_bn; const muprefs *up_from_up; unsigned long rdv; } bx_call;
 extern bx_call g_calls[CMAX]; extern unsigned g_ncalls;
 static inline mop *build_exec_rec(const mtree *t, mlayout *l, unsigned long rdv, mop *upstream, mbindings *scope, muprefs *up)
 {
@@ -81,7 +85,7 @@ static inline mop *build_exec_rec(const mtree *t, mlayout *l, unsigned long rdv,
   M_ASSERT(upstream != 0, "a sub-expression is built on a non-null upstream");
   unsigned k = g_ncalls < CMAX ? g_ncalls : 0; g_ncalls++;
   g_calls[k].tree = t; g_calls[k].lay = l; g_calls[k].entry = l->m_size; g_calls[k].upstream = upstream;
-  g_calls[k].scope = scope; g_calls[k].scope_super = scope->m_super; g_calls[k].up = up; g_calls[k].rdv = rdv;
+  g_calls[k].scope = scope; g_calls[k].scope_super = scope->m_super; g_calls[k].up = up; g_calls[k].up_from_bn = up->from_bn; g_calls[k].up_from_up = up->from_up; g_calls[k].rdv = rdv;
   mop *o = new_op(K_SUBCHAIN); o->call = (int)k; o->a[0] = upstream;
   unsigned long grow = nondet_ulong();
   M_ASSUME(grow <= (1UL << 20) && l->m_size <= (1UL << 40));
@@ -109,4 +113,54 @@ static inline void or_add_branch(mop *m, mop *origin, mop *b)
 #define IT_NE(a, b) ((_Bool)((a) != (b)))
 #define IT_DEREF(a) (a)
 #define IT_PREINC(ap) (++*(ap), (ap))
+/* ---- names: READ, BIND, BLOCK -------------------------------------------------------------------------------------
+ * bindings::find / uprefs::find are ASSUMED by their contracts proved in the C03 bind unit (innermost binding of the chain or
+ * nullptr; the up-value known under this name or nullptr); the harness chooses what the current scope chain (g_local) and the
+ * enclosing block's up-value table (g_upv) know.  uprefs::refd_ids: the (id, name) pairs in use, ids 0..n-1 ascending. */
+typedef struct mbinding { mop *m_bind; const mbuiltin *m_bi; } mbinding;
+typedef struct mupref { _Bool builtin; unsigned id; const mbuiltin *bi; } mupref;
+typedef struct midname { unsigned first; matom second; } midname;
+typedef struct midmap { midname d[NATOMS]; unsigned long n; } midmap;
+extern mbindings g_bn; extern muprefs g_up;
+extern _Bool g_has_local[NATOMS], g_has_upv[NATOMS]; extern mbinding g_local[NATOMS]; extern mupref g_upv[NATOMS];
+extern midmap g_refd;
+extern unsigned g_nbinds; extern const mbindings *g_bind_scope; extern matom g_bind_name; extern const mop *g_bind_op;
+extern const mlayout *g_rdv_lay; extern unsigned long g_rdv_inner;
+static inline const matom *mtree_str(const mtree *t) { return &t->m_str; }
+static inline mbindings mbindings_root(void) { mbindings b; b.m_super = 0; return b; }
+static inline muprefs muprefs_nested(const mbindings *bn, const muprefs *up) { muprefs u; u.from_bn = bn; u.from_up = up; return u; }
+static inline mbinding *mb_find(mbindings *bn, matom name)
+{
+  M_ASSERT(bn == &g_bn, "names are looked up in the current scope chain");
+  M_ASSERT(name >= 0 && name < NATOMS, "a name of the program");
+  return (name >= 0 && name < NATOMS && g_has_local[name]) ? &g_local[name] : 0;
+}
+static inline mupref *mu_find(muprefs *up, matom name)
+{
+  M_ASSERT(up == &g_up, "up-values are looked up in the enclosing block's table");
+  M_ASSERT(name >= 0 && name < NATOMS, "a name of the program");
+  return (name >= 0 && name < NATOMS && g_has_upv[name]) ? &g_upv[name] : 0;
+}
+static inline void mb_bind(mbindings *bn, matom name, mop *op) { g_nbinds++; g_bind_scope = bn; g_bind_name = name; g_bind_op = op; }
+static inline _Bool mbinding_is_builtin(const mbinding *b) { return b->m_bi != 0; }
+static inline mop *mbinding_get_bind(const mbinding *b) { M_ASSERT(b->m_bi == 0, "get_bind on a binder"); return b->m_bind; }
+static inline const mbuiltin *mbinding_get_builtin(const mbinding *b) { M_ASSERT(b->m_bi != 0, "get_builtin on a builtin"); return b->m_bi; }
+static inline _Bool mupref_is_builtin(const mupref *u) { return u->builtin; }
+static inline unsigned mupref_get_id(const mupref *u) { M_ASSERT(!u->builtin, "get_id on an up-value"); return u->id; }
+static inline const mbuiltin *mupref_get_builtin(const mupref *u) { M_ASSERT(u->builtin, "get_builtin on a builtin"); return u->bi; }
+static inline midmap mu_refd_ids(const muprefs *inner) { M_ASSERT(inner->from_bn == &g_bn && inner->from_up == &g_up, "refd_ids of the block's own table"); return g_refd; }
+#define IDMAP_RBEGIN(m) (&(m)->d[(m)->n <= NATOMS ? (m)->n : 0])   /* reverse iterator = pointer one past its element, as in the library */
+#define IDMAP_REND(m) (&(m)->d[0])
+#define IDMAP_SIZE(m) ((m)->n)
+#define RIT_ARROW(it) ((it) - 1)
+#define RIT_PREINC(ap) (--*(ap), (ap))
+static inline unsigned long model_reserve_rdv(mlayout *l)
+{ mop tmp; model_reserve(&tmp, l); g_rdv_lay = l; g_rdv_inner = tmp.lo; return tmp.lo; }
+static inline mop *mk_read(mop *const *up, mop *bind) { mop *o = new_op(K_READ); o->a[0] = *up; o->a[1] = bind; return o; }
+static inline mop *mk_upread(mop *const *up, const unsigned *id, const unsigned long *rdv) { mop *o = new_op(K_UPREAD); o->a[0] = *up; o->extra = *id; o->extra2 = *rdv; return o; }
+static inline mop *mk_apply(mlayout *l, mop *const *op, const _Bool *skip) { mop *o = new_op(K_APPLY); o->a[0] = *op; o->extra = *skip; model_reserve(o, l); return o; }
+static inline mop *mk_bind(mlayout *l, mop *const *up) { mop *o = new_op(K_BIND); o->a[0] = *up; model_reserve(o, l); return o; }
+static inline mop *mk_builtin(const mbuiltin *bi, mop *up, mlayout *l) { mop *o = new_op(K_BUILTIN); o->a[0] = up; o->bi = bi; return o; }
+static inline mop *mk_lex_closure(mop *const *up, const mlayout *il, const unsigned long *irdv, mop *const *origin, mop *const *op, const unsigned long *n)
+{ mop *o = new_op(K_LEXCLOSURE); o->a[0] = *up; o->a[1] = *origin; o->a[2] = *op; o->extra = *n; o->extra2 = *irdv; o->lo = il->m_size; return o; }
 #endif
